@@ -238,6 +238,13 @@ matrix *Matrix_NewFromPyBuffer(PyObject *obj, int id, int *ndim)
     PY_ERR_TYPE("invalid array type");
   }
 
+ if (view->shape[0] > INT_MAX ||
+     (view->ndim == 2 && view->shape[1] > INT_MAX)) {
+   PyBuffer_Release(view);
+   free(view);
+   PY_ERR(PyExc_OverflowError, "number of elements exceeds INT_MAX");
+ }
+
  *ndim = view->ndim;
  
  matrix *a = Matrix_New((int)view->shape[0], view->ndim == 2 ? (int)view->shape[1] : 1, id);
